@@ -247,3 +247,34 @@ func VerifC11_GovHandlers() {
 	}
 	zz.Reach("C11.gov.handlers")
 }
+
+// VerifC17_Upgrade: the upgrade plan changes only through a MsgUpgrade (or a MsgChangeParam on gov/upgrade) whose
+// sender is the ACL owner of gov/upgrade, and that message changes the upgrade plan alone.
+func VerifC17_Upgrade() {
+	g := vNewGov()
+	senders := []sdk.Address{g.a, g.b, g.s, nil, {}}
+	sender := senders[zz.Choice("sender", len(senders))]
+	up := types.Upgrade{Height: zz.Int64("height", 1, 1<<40), Version: []string{"1.0.0", "2.0.0"}[zz.Choice("version", 2)]}
+	before := g.raw()
+	var ok, crashed bool
+	if zz.Choice("via", 2) == 0 {
+		ok, crashed = vRun(g, types.MsgUpgrade{Address: sender, Upgrade: up})
+	} else {
+		ok, crashed = vRun(g, types.MsgChangeParam{FromAddress: sender, ParamKey: "gov/upgrade", ParamVal: g.cdc.MustMarshalJSON(up)})
+	}
+	after := g.raw()
+	zz.Assert("C17.upgrade.no-crash", !crashed)
+	isOwner := sender != nil && len(sender) > 0 && sender.Equals(g.b)
+	for i, k := range vParamKeys {
+		if k != "gov/upgrade" {
+			zz.Assert("C17.upgrade.changes-the-upgrade-plan-alone", bytes.Equal(before[i], after[i]))
+		} else if !isOwner {
+			zz.Assert("C17.upgrade.only-by-its-acl-owner", bytes.Equal(before[i], after[i]) && !ok)
+		}
+	}
+	if isOwner {
+		got := g.k.GetUpgrade(g.ctx)
+		zz.Assert("C17.upgrade.owner-change-takes-effect", ok && got.Height == up.Height && got.Version == up.Version)
+	}
+	zz.Reach("C17.upgrade")
+}
